@@ -9,6 +9,7 @@ mod mock;
 mod templ;
 mod admit;
 mod derive;
+mod hostloop;
 
 use common::*;
 use std::path::{Path, PathBuf};
@@ -29,6 +30,7 @@ fn replay_file(comp: &str, path: &Path, out: &mut Out) {
         "templ" => templ::replay(&desc, &ops, out),
         "admit" => admit::replay(&desc, &ops, out),
         "derive" => derive::replay(&desc, &ops, out),
+        "hostloop" => hostloop::replay(&desc, &ops, out),
         _ => panic!("unknown component"),
     }
 }
@@ -47,6 +49,7 @@ fn main() {
             Some("TemplTable") => templ::table_templ(),
             Some("AdmitTable") => admit::table_admit(),
             Some("DeriveTable") => derive::table_derive(),
+            Some("HostLoopTable") => hostloop::table_hostloop(),
             _ => {
                 eprintln!("unknown table");
                 std::process::exit(2)
@@ -123,6 +126,7 @@ fn main() {
         "templ" => templ::run(&args, &mut out),
         "admit" => admit::run(&args, &mut out),
         "derive" => derive::run(&args, &mut out),
+        "hostloop" => hostloop::run(&args, &mut out),
         _ => {
             eprintln!("unknown component {}", comp);
             std::process::exit(2)
